@@ -22,7 +22,7 @@ RULE = ('Cases: n 1..24; F from classes {zero, nilpotent chain, stable, unstable
 ASSUMPTIONS = ['tolerance c*eps*n*(1+log2 scaling)*|exp(|F|dt)|^2*max(|Q|dt, tiny); c fixed, calibrated',
                'x87 longdouble (64-bit mantissa) available; mpmath 60 digits']
 
-F_CLASSES = ['zero', 'nilpotent', 'stable', 'unstable', 'skew', 'stiff', 'navlike', 'diagonal', 'blockdiag']
+F_CLASSES = ['zero', 'nilpotent', 'stable', 'unstable', 'skew', 'stiff', 'navlike', 'diagonal', 'blockdiag', 'symmetric']
 Q_CLASSES = ['zero', 'rank1', 'singular', 'full', 'diag', 'identity']
 DT_CHOICES = [0.0, 1e-6, 1e-3, 0.01, 0.1, 0.5, 1.0, 2.0, 5.0, 10.0]
 
@@ -108,6 +108,23 @@ def build(case):
             if n > 2 and rng.rand() < 0.5:
                 d[1] = d[0]
             F = np.diag(d)
+        elif fc == 'symmetric':      # F = F^T, not diagonal: diffusion / consensus couplings (graph Laplacians: singular), symmetric
+            v = rng.randint(4)       # matrices with zero eigenvalues, with +-lambda pairs, negative definite ones
+            if v == 0 and n >= 2:    # chain Laplacian
+                F = -(2 * np.eye(n) - np.eye(n, k=1) - np.eye(n, k=-1))
+                F[0, 0] = F[-1, -1] = -1.0
+            elif v == 1 and n >= 3:  # ring Laplacian
+                F = -(2 * np.eye(n) - np.eye(n, k=1) - np.eye(n, k=-1))
+                F[0, -1] = F[-1, 0] = 1.0
+            else:
+                U = np.linalg.qr(rng.randn(n, n))[0]
+                lam = -10.0 ** rng.uniform(-2, 0, n)
+                if v == 2:           # zero eigenvalues and a +-lambda pair
+                    lam[rng.permutation(n)[:max(1, n // 3)]] = 0.0
+                    if n >= 2:
+                        lam[1] = -lam[0]
+                F = (U * lam) @ U.T
+                F = 0.5 * (F + F.T)
         elif fc == 'blockdiag':      # 2x2 oscillator / 1x1 decay blocks
             F = np.zeros((n, n))
             i = 0
